@@ -66,11 +66,13 @@ let spec input obs_s =
     let prev_state = ref o.init_state in
     let prev_tip = ref (if is_x then (match Store.tipB s0 with Some t -> int_of_n t.Store.id | None -> -2) else tip_of o.init_state) in
     let caveat = ref false in
+    let asked = Hashtbl.create 8 in      (* peers that were sent a getheaders at some point *)
     let known = Hashtbl.create 64 in
     Stdlib.List.iter (fun i -> Hashtbl.replace known i ()) sc.init;
     let filtered_inv = ref None in
     Stdlib.List.iter (fun step -> Stdlib.List.iter (fun (e : obs_event) ->
         if Stdlib.List.mem "P" e.effs then fail "panic" e.label;
+        Stdlib.List.iter (fun eff -> match parse_g eff with Some (q, _, _) -> Hashtbl.replace asked q () | None -> ()) e.effs;
         let t = tip_of e.state in
         (match Hashtbl.find_opt cum_of !prev_tip, Hashtbl.find_opt cum_of t with
          | Some a, Some b -> if Z.lt b a then fail "tip-work-decreased" e.label
@@ -100,7 +102,9 @@ let spec input obs_s =
         let detail = Printf.sprintf "tip=%d best-offer-work=%s" o.tip (Z.format "%x" best) in
         if (not is_x) && sc.dis then fail "checkpoints-disabled-peer-disconnected" detail
         else if (match !filtered_inv with Some i -> not (stored i) | None -> false) then fail "sync-peer-announcement-ignored" detail
-        else if sync_lags then fail "lagging-sync-peer-kept" detail
+        else if sync_lags && not (Stdlib.List.exists (fun (q, n) ->
+            Hashtbl.mem asked q && Z.equal (zt_of_z (SyncSpec.chain_cum gw (Stdlib.List.map (src_of u) n.chain))) best) reachable)
+        then fail "lagging-sync-peer-kept" detail      (* the known finding: a better peer is NEVER asked *)
         else fail "not-converged" detail
       end
     end;
